@@ -348,6 +348,7 @@ def c05(tier):
             {'kind': 'replay', 'model': MS('serial_S6', 'serial', 'S6'), 'kinds': ALLKINDS[:8], 'sample': 0.03 if q else 0.6},
             {'kind': 'drive', 'profile': 'serial', 'traces': 160 if q else 3000, 'steps': 50},
             {'kind': 'drive', 'profile': 'serial', 'traces': 48 if q else 800, 'steps': 25, 'extra': ['-spread', '4096']},
+            {'kind': 'drive', 'profile': 'serial', 'traces': 24 if q else 300, 'steps': 12, 'extra': ['-spread', '20000']},
         ],
     }
 
